@@ -2,7 +2,8 @@ import JadeModel.Proofs.SystemLiveDefs
 
 set_option linter.unusedSimpArgs false
 
-/-! Fault-free executions, part 2: definitions (see `SystemLive1`). -/
+/-! Fault-free executions, parts 2–5: the definitions of `SystemLive1` … `SystemLive4` (the step lemmas, which are
+    independent of each other, are in the `SystemLiveStep*` modules and compile in parallel). -/
 
 namespace Jade.Sys
 
@@ -109,6 +110,74 @@ structure Live2 (s : Sys) : Prop where
 
 theorem live2_init (sc : Scn) : Live2 (init sc) := by
   refine ⟨?_, ?_, ?_, ?_⟩ <;> simp [init, HasJob]
+
+/-- the holder's view of the consolidated file -/
+structure Live3 (s : Sys) : Prop where
+  /-- every collected row is accounted for in the holder's copy -/
+  hProc : ∀ q a y, s.procs q = .sub a y → holds y.pc = true → ∀ j : JobId, HasJob s.processed j →
+    y.loc.st j = .done ∨ HasJob y.pass j ∨ j ∈ y.newly
+  /-- …and, between rounds, in the status file -/
+  dProc : s.submitter = none → ∀ j : JobId, HasJob s.processed j → s.disk.st j = .done
+  newlyNotNs : ∀ q a y, s.procs q = .sub a y → holds y.pc = true → ∀ j ∈ y.newly, y.loc.st j ≠ .ns
+  passNotNs : ∀ q a y, s.procs q = .sub a y → holds y.pc = true → ∀ j : JobId, HasJob y.pass j → y.loc.st j ≠ .ns
+  pendNs : ∀ q a y, s.procs q = .sub a y → holds y.pc = true → ∀ j ∈ y.pend, y.loc.st j = .ns
+  toCancelDone : ∀ q a y, s.procs q = .sub a y → ∀ j ∈ y.toCancel, y.loc.st j = .done
+  /-- DONE in the copy but not yet on disk only for this round's cancellations and collections -/
+  syncDone : ∀ q a y, s.procs q = .sub a y → holds y.pc = true → ∀ j : JobId, y.loc.st j = .done →
+    s.disk.st j = .done ∨ j ∈ y.toCancel ∨ HasJob y.pass j ∨ j ∈ y.newly
+
+theorem live3_init (sc : Scn) : Live3 (init sc) := by
+  refine ⟨?_, ?_, ?_, ?_, ?_, ?_, ?_⟩ <;> simp [init, HasJob]
+
+/-- the role holder believes every queued or running batch active (plain-language form) -/
+theorem holder_tracked' {s : Sys} (hc : CapInv s) (h0 : Live0 s) {q : Pid} {a : Bool} {y : SubP}
+    (hq : s.procs q = .sub a y) (hh : holds y.pc = true) (k : Hid)
+    (hk : s.slurm k = some .running ∨ s.slurm k = some .pending) : k ∈ y.out := by
+  apply holder_tracked hc h0 hq hh
+  rcases hk with hk | hk <;> simp [activeB, hk]
+
+/-- an id that is known to the scheduler and not active has ended -/
+theorem ended_of_not_active {s : Sys} {k : Hid} (h1 : s.slurm k ≠ none) (h2 : activeB s k = false) :
+    s.slurm k = some .ended := by
+  unfold activeB at h2
+  split at h2 <;> simp_all
+  next h3 h4 =>
+    cases hk : s.slurm k with
+    | none => exact absurd hk h1
+    | some b => cases b <;> simp_all
+
+structure Live4 (s : Sys) : Prop where
+  diskSub : ∀ j : JobId, s.disk.st j = .sub →
+    ∃ B ∈ s.batches, j ∈ B.jobs ∧ ∃ h : Hid, B.hid = some h ∧ h ∈ s.disk.ids
+  hSub : ∀ q a y, s.procs q = .sub a y → holds y.pc = true → ∀ j : JobId, y.loc.st j = .sub →
+    j ∈ y.newly ∨ HasJob y.pass j ∨
+      ∃ B ∈ s.batches, j ∈ B.jobs ∧ ∃ h : Hid, B.hid = some h ∧ (h ∈ y.out ∨ HasJob (s.nodeFile B.bid) j)
+  pendBatch : ∀ q a y, s.procs q = .sub a y → holds y.pc = true → ∀ j ∈ y.pend,
+    ∃ B ∈ s.batches, j ∈ B.jobs ∧ ∃ h : Hid, B.hid = some h ∧ h ∈ y.out
+  /-- after the collection loop: nothing uncollected outside the batches believed active -/
+  quiet : ∀ q a y, s.procs q = .sub a y → (y.pc = .ready ∨ y.pc = .marked ∨ y.pc = .persisted) →
+    ∀ B ∈ s.batches, ∀ h : Hid, B.hid = some h → h ∈ y.out ∨ s.nodeFile B.bid = []
+
+theorem live4_init (sc : Scn) : Live4 (init sc) := by
+  refine ⟨?_, ?_, ?_, ?_⟩ <;> simp [init, HasJob]
+
+/-- like `plain_cases`, after `cases op` -/
+macro "plain_split" h:ident hs:ident hg:ident : tactic => `(tactic|
+  (have $hs:ident := stepP_step $h:ident
+   have $hg:ident := plainGuard_stepP $h:ident
+   simp only [PlainGuard] at $hg:ident <;> (try (obtain ⟨_, rfl⟩ := $hg:ident)) <;> step_cases $hs:ident))
+
+theorem snoc_mem (l : List Batch) (b : Batch) : b ∈ l ++ [b] := by simp
+
+structure Live5 (s : Sys) : Prop where
+  dBlk : ∀ j : JobId, s.disk.st j = .ns → ∀ b ∈ s.disk.blk j, s.disk.st b ≠ .done
+  hBlk : ∀ q a y, s.procs q = .sub a y → holds y.pc = true → ∀ j : JobId, y.loc.st j = .ns →
+    ∀ b ∈ y.loc.blk j, y.loc.st b ≠ .done ∨ b ∈ y.toCancel ∨ HasJob y.pass b
+  nsBlocked : ∀ q a y, s.procs q = .sub a y → y.pc = .persisted → 1 ≤ s.sc.maxNodes → y.out = [] →
+    ∀ j : JobId, j < s.sc.n → y.loc.st j = .ns → y.loc.blk j ≠ []
+
+theorem live5_init (sc : Scn) : Live5 (init sc) := by
+  refine ⟨?_, ?_, ?_⟩ <;> simp [init, HasJob]
 
 #realize_aux Jade
 
